@@ -288,6 +288,24 @@ impl World {
     }
 
     fn views_consistent(&self) -> Option<Disc> {
+        // the observation asks AllBalances: the same question twice must get the same answer (C10), and
+        // what it lists must agree with the single-denomination query (C09)
+        for h in self.fx.users.iter().cloned().chain(self.real_contract_addrs()) {
+            #[allow(deprecated)]
+            let (a, b) = (self.app.wrap().query_all_balances(h.clone()), self.app.wrap().query_all_balances(h.clone()));
+            if let (Ok(a), Ok(b)) = (a, b) {
+                if a != b {
+                    return Some(Disc::new(&["C10", "C09"], "query:not-idempotent", format!("AllBalances({}) answered {:?} and then {:?}", h, a, b)));
+                }
+                for c in &a {
+                    if let Ok(single) = self.app.wrap().query_balance(h.clone(), c.denom.clone()) {
+                        if single.amount != c.amount {
+                            return Some(Disc::new(&["C09", "C10"], "query:balance-views-disagree", format!("AllBalances({}) lists {} but Balance says {}", h, c, single)));
+                        }
+                    }
+                }
+            }
+        }
         for a in self.real_contract_addrs() {
             let addr = Addr::unchecked(a.clone());
             let dump = self.app.dump_wasm_raw(&addr);
@@ -501,6 +519,10 @@ impl World {
         // ---- model-free: all-or-nothing
         if let Some(p) = &panic {
             let mut d = Disc::new(&["C01"], panic_sig(p), format!("the call panicked instead of returning Ok or Err: {}", p));
+            // "whatever the key bytes" (C08): the call that blew up wrote a key of 64 KiB or more
+            if tx.nodes.iter().any(|n| n.writes.iter().any(|w| matches!(w, Write::Set(k, _) | Write::Remove(k) if k.0.len() >= 65536))) {
+                d.owners.push("C08");
+            }
             d.model_free = true;
             discs.push(d);
         }
